@@ -7,12 +7,16 @@ from engine import tlc
 WORKER = os.path.join(common.VERIF, "harness", "tracker_worker.py")
 
 
-def cfg(name, maxreq, gen=False):
+ALL = {"f1", "f2", "g", "d", "e", "h"}
+
+
+def cfg(name, maxreq, gen=False, use=("f1", "f2", "g", "d"), clients=(1, 2)):
     path = os.path.join(common.VERIF, "out", "cfg", "RT_%s.cfg" % name)
+    k = dict(Clients=set(clients), MaxReq=maxreq, Use=set(use))
     if gen:
-        tlc.write_cfg(path, constants=dict(Clients={1, 2}, MaxReq=maxreq), init="Init", next="Next", constraint="Emit")
+        tlc.write_cfg(path, constants=k, init="Init", next="Next", constraint="Emit")
     else:
-        tlc.write_cfg(path, constants=dict(Clients={1, 2}, MaxReq=maxreq), spec="Spec", invariants=["Inv"], properties=["DeletedOnlyWhenDue", "DeletedWhenDue"], view="View")
+        tlc.write_cfg(path, constants=k, spec="Spec", invariants=["Inv"], properties=["DeletedOnlyWhenDue", "DeletedWhenDue"], view="View")
     return path
 
 
@@ -29,16 +33,21 @@ def run_job(args):
 def body(c):
     rng = random.Random(c.seed)
     c.model_check("ResourceTracker[2 clients, %d requests]" % (6 if c.quick else 7), "ResourceTracker", cfg("mc", 6 if c.quick else 7), workers=16, timeout=1500)
+    c.model_check("ResourceTracker[nested folders]", "ResourceTracker", cfg("mcf", 6, use=("d", "e", "h", "g"), clients=(1,)), workers=16, timeout=1500)
     L = 3 if c.quick else 4
     r = tlc.run("ResourceTracker", cfg("gen", L, gen=True), workers=1, timeout=1500, heap="6g"); c.add_tlc("ResourceTracker-gen[L=%d]" % L, r)
     hists = tlc.printed_json(r)
-    r = tlc.run("ResourceTracker", cfg("sim", 10, gen=True), simulate="num=%d" % (400 if c.quick else 4000), depth=25, seed=c.seed + 11, workers=1, timeout=900)
+    r = tlc.run("ResourceTracker", cfg("genf", 4 if c.quick else 5, gen=True, use=("d", "e", "h"), clients=(1,)), workers=1, timeout=1500, heap="6g"); c.add_tlc("ResourceTracker-gen[folders]", r)
+    hf = tlc.printed_json(r)
+    c.extra["sequences_folders"] = len(hf)
+    r = tlc.run("ResourceTracker", cfg("sim", 10, gen=True, use=sorted(ALL)), simulate="num=%d" % (400 if c.quick else 4000), depth=25, seed=c.seed + 11, workers=1, timeout=900)
     c.add_tlc("ResourceTracker-simulate", r)
     long = [h for h in tlc.printed_json(r) if len(h) >= 5]
     c.extra["sequences_exhaustive"] = len(hists); c.extra["sequences_simulated"] = len(long)
     cap = 5000 if c.quick else 100000
     if len(hists) > cap: hists = rng.sample(hists, cap)
-    allh = hists + long
+    if len(hf) > cap: hf = rng.sample(hf, cap)
+    allh = hists + hf + long
     base = common.scratch("c20")
     nw = 14
     jobs = [(base, k, allh[k::nw], k % 2 == 0) for k in range(nw)]
